@@ -8,7 +8,7 @@ use crate::{for_both, Ctx, Tier};
 use blsful::*;
 use serde_json::json;
 
-pub const RULE: &str = "n in {2,3,5,16,33} (quick) / every n in 2..=64 (thorough) x 3 schemes x 2 groups: n fresh keys, n distinct messages (lengths from the length classes), library aggregate (always through BOTH doors, AggregateSignature::from_signatures and TryFrom<&[Signature]>, which must agree; an acceptance through either counts). Checked: honest list in original order, reversed, rotated and 3 seeded shuffles must verify; single-position perturbations (message bit flip, key replaced, pair dropped, pair added - with a fresh key, and with the identity key (pairing product unchanged) carrying a fresh / the shared message at first, middle, last position -, two messages swapped between different signers) at positions first/middle/last (quick) or every position for n<=16 and 8 sampled positions above (thorough) must fail; duplicate-message multisets (two signers / all signers share one message) with the algebraically valid aggregate must be rejected by Basic and accepted by Aug and PoP; the same (key, message) pair occurring twice (signature counted twice) in three arrangements must be accepted by Aug and PoP, and the aggregate lacking the second signature must be rejected; refusal matrix of from_signatures: 0 and 1 inputs, every mixed-scheme assignment for n<=3 at every position. Every decision is also taken by the reference CoreAggregateVerify (+ Basic's uniqueness rule) over the same bytes; expectation != reference is a harness error. Distinct by (suite, scheme, variant, list bytes, aggregate); non-trivial = all keys decode, aggregate not the identity, the multi-pairing decides.";
+pub const RULE: &str = "n in {2,3,5,16,33} (quick) / every n in 2..=64 (thorough) x 3 schemes x 2 groups: n fresh keys, n distinct messages (lengths from the length classes), library aggregate (always through BOTH doors, AggregateSignature::from_signatures and TryFrom<&[Signature]>, which must agree; an acceptance through either counts). Checked: honest list in original order, reversed, rotated and 3 seeded shuffles must verify; single-position perturbations (message bit flip, key replaced, pair dropped, pair added - with a fresh key, and with the identity key (pairing product unchanged) carrying a fresh / the shared message at first, middle, last position -, two messages swapped between different signers) at positions first/middle/last (quick) or every position for n<=16 and 8 sampled positions above (thorough) must fail; duplicate-message multisets (two signers / all signers share one message) with the algebraically valid aggregate must be rejected by Basic and accepted by Aug and PoP; the same (key, message) pair occurring twice (signature counted twice) in three arrangements must be accepted by Aug and PoP, and the aggregate lacking the second signature must be rejected; refusal matrix of from_signatures: 0 and 1 inputs, every mixed-scheme assignment for n<=3 at every position. Every decision is also taken by the reference CoreAggregateVerify (+ Basic's uniqueness rule) over the same bytes; expectation != reference is a harness error. History clusters (1 quick / 6 thorough per group): for three signers and every scheme the honest list (two orders), seven altered lists and the aggregate under each other label, asked in ordered pairs (a,b) as a,b,b,a with the reference's answers. Distinct by (suite, scheme, variant, list bytes, aggregate); non-trivial = all keys decode, aggregate not the identity, the multi-pairing decides.";
 
 pub fn run(ctx: &mut Ctx) {
     for_both!(run_suite, ctx);
@@ -36,6 +36,14 @@ fn run_suite<C: Suite>(ctx: &mut Ctx) {
                 continue;
             }
             one_list::<C>(ctx, g, scheme, cnt);
+        }
+    }
+    // history clusters
+    ctx.require(&format!("{n}/history"));
+    for i in 0..ctx.tier.pick(1, 6) {
+        g += 1;
+        if ctx.mine(g) {
+            history_cluster::<C>(ctx, g, i);
         }
     }
     // refusal matrix
@@ -255,4 +263,55 @@ fn refusal<C: Suite>(ctx: &mut Ctx, g: u64) {
         }
     }
     ctx.exhaustive.push("from_signatures scheme assignments for n in {2,3} (3^n each) and sizes 0,1".into());
+}
+
+/// Three signers, one list per scheme: the honest list (two orders) and altered lists against the
+/// aggregate, and the aggregate under every other scheme label, asked in ordered pairs as
+/// a, b, b, a (all pairs within a scheme, sampled pairs across schemes). The answers are the
+/// reference's (computed once per question).
+fn history_cluster<C: Suite>(ctx: &mut Ctx, g: u64, i: usize) {
+    use super::history::{family_pairs, q, sandwich_pairs, Q};
+    let mut rng = ctx.rng(g);
+    let n = C::NAME;
+    let keys: Vec<_> = (0..3).map(|_| gen::random_scalar(&mut rng)).collect();
+    let sks: Vec<SecretKey<C>> = keys.iter().map(sk_from_rs::<C>).collect();
+    let pks: Vec<PublicKey<C>> = sks.iter().map(|s| s.public_key()).collect();
+    let extra = sk_from_rs::<C>(&gen::random_scalar(&mut rng)).public_key();
+    let msgs: Vec<Vec<u8>> = (0..3).map(|j| { let mut m = gen::message([8usize, 32, 0, 100][(i + j) % 4], Content::Random, &mut rng); m.push(j as u8); m }).collect();
+    type A = Option<Vec<u8>>;
+    let verdict = |b: bool| -> A { Some(vec![b as u8]) };
+    let mut qs: Vec<Q<A>> = Vec::new();
+    for s1 in SCHEMES {
+        let Ok(sigs) = sks.iter().zip(&msgs).map(|(s, m)| s.sign(lscheme(s1), m)).collect::<Result<Vec<Signature<C>>, _>>() else { return };
+        let Ok(agg) = agg_from::<C>(&sigs) else { return };
+        let data: Vec<(PublicKey<C>, Vec<u8>)> = pks.iter().copied().zip(msgs.iter().cloned()).collect();
+        let mut lists: Vec<(String, Vec<(PublicKey<C>, Vec<u8>)>)> = vec![("honest".into(), data.clone())];
+        let mut d = data.clone(); d.reverse(); lists.push(("reversed".into(), d));
+        let mut d = data.clone(); d[1].1 = gen::flip_bit(&d[1].1, 0); lists.push(("msg-flip".into(), d));
+        let mut d = data.clone(); d[2].0 = extra; lists.push(("key-replaced".into(), d));
+        let mut d = data.clone(); d.pop(); lists.push(("pair-dropped".into(), d));
+        let mut d = data.clone(); d.push((extra, b"added".to_vec())); lists.push(("pair-added".into(), d));
+        let mut d = data.clone(); d.push((PublicKey::<C>(pk_id::<C>()), msgs[0].clone())); lists.push(("identity-pair-added".into(), d));
+        let mut d = data.clone(); let t = d[0].1.clone(); d[0].1 = d[1].1.clone(); d[1].1 = t; lists.push(("msgs-swapped".into(), d));
+        let fam = format!("made-{}", s1.name());
+        let aggb = enc_pt(&agg_pt(&agg));
+        for (ln, list) in &lists {
+            let pairs: Vec<(Vec<u8>, Vec<u8>)> = list.iter().map(|(p, m)| (pk_bytes(p), m.clone())).collect();
+            let want = refimpl::aggregate_verify::<C::R>(s1, &pairs, &aggb);
+            let list = list.clone();
+            qs.push(q(format!("{fam}/{ln}"), verdict(want), move || verdict(agg.verify(&list).is_ok())));
+        }
+        for s2 in s1.others() {
+            let re = wrap_agg::<C>(s2, agg_pt(&agg));
+            let pairs: Vec<(Vec<u8>, Vec<u8>)> = data.iter().map(|(p, m)| (pk_bytes(p), m.clone())).collect();
+            let want = refimpl::aggregate_verify::<C::R>(s2, &pairs, &aggb);
+            let list = data.clone();
+            qs.push(q(format!("{fam}/label-{}", s2.name()), verdict(want), move || verdict(re.verify(&list).is_ok())));
+        }
+    }
+    let pairs = family_pairs(&qs, ctx.tier.pick(100, 400), &mut rng);
+    let d = || json!({"suite":n,"keys":keys.iter().map(|k| hex::encode(k.to_be_bytes())).collect::<Vec<_>>(),"msgs":msgs.iter().map(|m| crate::hx(m)).collect::<Vec<_>>(),"note":"verdicts answer [1]/[0]; the answers on their own are the reference's"});
+    let mut cid = keys[0].to_be_bytes().to_vec();
+    cid.extend_from_slice(&msgs[0]);
+    sandwich_pairs(ctx, "C06", &format!("{n}/history"), "lists", &cid, &d, &qs, &pairs);
 }
